@@ -53,6 +53,8 @@ VARIANTS = {
   fault('image-title-conditional', F(ST, 'Image.__init__', '            self.title = EscapeSequence.strip(match.group(3))\n', "            if match.group(3):\n                self.title = EscapeSequence.strip(match.group(3))\n"), 'R-RENDER-TOTAL'),
  ],
  'C03': [
+  fault('closing-fence-exact-length', F(BT, 'CodeFence.read', "                    and not stripped_line.rstrip().strip(cls._open_info[1][0])\n", "                    and stripped_line.rstrip() == cls._open_info[1]\n"), 'R-FENCE-CLOSE'),
+  fault('closing-fence-indent-three', F(BT, 'CodeFence.read', "                    and diff < 4):", "                    and diff < 3):"), 'R-FENCE-CLOSE'),
   fault('last-item-loose-by-trailing-blank', F(BT, 'List.read', 'last_parse_buffer.loose = len(last_parse_buffer) > 1 and last_parse_buffer.loose', 'last_parse_buffer.loose = len(last_parse_buffer) > 0 and last_parse_buffer.loose'), 'R-LAST-ITEM-LOOSE'),
   fault('listitem-drop-backstep', F(BT, 'ListItem.read', "                if newline_count:\n                    lines.backstep()\n                    del line_buffer[-newline_count:]\n                break\n",
                                    "                if newline_count:\n                    del line_buffer[-newline_count:]\n                break\n"), 'R-LOOSE-SIGNAL'),
